@@ -90,3 +90,30 @@ def coq_patient(p: dict, side: str, tmap) -> str:
         if side in sides:
             diag[m] = sides[side]
     return "{| p_tstage := " + s(str(tmap(p["t"]))) + "; p_find := " + coq_diagnosis(diag) + " |}"
+
+
+def coq_bpatient(p: dict, tmap) -> str:
+    di = {m: sd["ipsi"] for m, sd in p["find"].items() if "ipsi" in sd}
+    dc = {m: sd["contra"] for m, sd in p["find"].items() if "contra" in sd}
+    return ("{| bp_t := " + s(str(tmap(p["t"]))) + "; bp_ipsi := " + coq_diagnosis(di) + "; bp_contra := "
+            + coq_diagnosis(dc) + " |}")
+
+
+def coq_bilateral(case: dict, bi_model, symT=False, symL=True) -> str:
+    from . import impl
+    ui = coq_uni(impl.leaf_case(case, bi_model.ipsi))
+    uc = coq_uni(impl.leaf_case(case, bi_model.contra))
+    return f"{{| b_ipsi := {ui}; b_contra := {uc}; b_symT := {boolean(symT)}; b_symL := {boolean(symL)} |}}"
+
+
+def coq_midline(case: dict, ml_model) -> str:
+    fl = case.get("flags", {})
+    symL = fl.get("lnl_sym", True)
+    ext = coq_bilateral(case, ml_model.ext, False, symL)
+    noext = coq_bilateral(case, ml_model.noext, False, symL)
+    central = f"(Some {coq_bilateral(case, ml_model.central, True, symL)})" if ml_model.use_central else "None"
+    unknown = f"(Some {coq_bilateral(case, ml_model.unknown, False, symL)})" if ml_model.marginalize_unknown else "None"
+    mixing = f"(Some {q(ml_model.mixing_param)})" if ml_model.use_mixing else "None"
+    return (f"{{| ml_ext := {ext}; ml_noext := {noext}; ml_central := {central}; ml_unknown := {unknown}; "
+            f"ml_mixing := {mixing}; ml_midext := {q(ml_model.midext_prob)}; ml_evo := {boolean(ml_model.use_midext_evo)}; "
+            f"ml_symL := {boolean(symL)} |}}")
